@@ -1,16 +1,62 @@
-import HqModel.Lemmas.JournalPrune
+import HqModel.Lemmas.JournalPruneEq
 /-!
 C12 — pruning the journal does not change what a restart restores (model M5 Journal: journal/prune.rs, restore.rs).
+
+`SameView R R'` (Lemmas/JournalPruneEq.lean) = what C12 compares at the level of the `StateRestorer`: every job entry
+(job description, submits, open flag, per-task state with started data, last instance id) **up to crash counters**,
+the allocation queues, the queue high-water mark and the uid. `restore_jobs_and_queues` is a function of exactly these
+fields plus the crash counters (read only by the adjust map) and `queue_to_worker_resources`.
 -/
 namespace HqModel.C12
 open HqModel.Journal
 
-/-- **c12_wf (prunable again).** Pruning a pruned journal is pruning the original with the intersections of the live
-sets; in particular pruning twice with the same live sets changes nothing, and prune distributes over what is appended
-later. -/
+/-- the live sets cover every job the restart would restore (`handle_prune_journal`: jobs of the State that are not
+terminated; by C10 these are the jobs `meaning J` still has) -/
+def LiveCovers (R : Restorer) (lj : List Nat) : Prop := ∀ j, (alGet R.jobs j).isSome = true → lj.contains j = true
+
+/-- **Full-strength statement** (kept visible; FALSE of the current code in exactly two components, see
+`c12_f12_witness` and `c12_f25_witness`, both registered as known findings — prune semantics is a maintainer-level
+design decision): restoring the pruned journal gives the same restorer state as restoring the journal, *including*
+crash counters and the worker resources learnt for allocation queues. -/
+def C12Full : Prop :=
+  ∀ (J : List Record) (lj lw : List Nat) (R : Restorer), restorerFold J = .ok R → LiveCovers R lj →
+    ∃ R', restorerFold (prune lj lw J) = .ok R' ∧ R'.jobs = R.jobs ∧ R'.queues = R.queues ∧ R'.queueRes = R.queueRes ∧
+      R'.uid = R.uid
+
+/-- **c12_prune_equiv (partial).** For EVERY journal `J` on which `load_event_file` succeeds (in particular every
+producible one, C10), every set of live workers and every set of live jobs that covers the jobs a restart would
+restore: `load_event_file` also succeeds on `prune J`, and the two restorer states have the same view — the same
+unfinished jobs with the same submits, open flags, task outcomes, started data and last instance ids, no entry for
+any other job, the same allocation queues and uid. Batched `TasksCanceled`/`TasksAborted` records spanning live and
+completed jobs are covered (element-wise filtering).
+Missing w.r.t. `C12Full`: crash counters (F12) and `queue_to_worker_resources` (F25). -/
+theorem c12_prune_equiv_partial (J : List Record) (lj lw : List Nat) (R : Restorer) (h : restorerFold J = .ok R)
+    (hl : LiveCovers R lj) : ∃ R', restorerFold (prune lj lw J) = .ok R' ∧ SameView R R' := by
+  have h0 : PRel (fun j => lj.contains j) ({} : Restorer) {} :=
+    ⟨fun _ _ => optEq_refl _, fun _ _ => rfl, rfl, rfl, rfl⟩
+  obtain ⟨R', h1, h2⟩ := prel_fold_prune lj lw J {} {} R h0 h
+  exact ⟨R', h1, sameView_of_prel h2 hl⟩
+
+/-- **c12_wf, part 1 (the pruned journal can be appended to).** Whatever the server writes after the prune (`K`, any
+records): if the unpruned journal followed by `K` restores, so does the pruned journal followed by `K`, with the same
+view again. With `K = []` this is "restore does not stop on the pruned journal". -/
+theorem c12_append (J K : List Record) (lj lw : List Nat) (R R2 : Restorer) (h : restorerFold J = .ok R)
+    (hl : LiveCovers R lj) (h2 : restorerFold (J ++ K) = .ok R2) :
+    ∃ R2', restorerFold (prune lj lw J ++ K) = .ok R2' ∧ SameView R2 R2' := by
+  obtain ⟨R', h1, hv⟩ := c12_prune_equiv_partial J lj lw R h hl
+  unfold restorerFold at *
+  rw [restorerFoldFrom_append, h] at h2
+  obtain ⟨R2', g1, g2⟩ := prel_fold_common K R R' R2 (prel_of_sameView hv) h2
+  exact ⟨R2', by rw [restorerFoldFrom_append, h1]; exact g1, sameView_of_prel_all g2⟩
+
+/-- **c12_wf, part 2 (the pruned journal can be pruned again).** Pruning a pruned journal (after more records `K` were
+appended) is pruning the original with the intersections of the live sets; in particular pruning twice with the same
+live sets changes nothing. -/
 theorem c12_wf (lj lw lj2 lw2 : List Nat) (J K : List Record) :
     prune lj2 lw2 (prune lj lw J ++ K) = prune (inter lj lj2) (inter lw lw2) J ++ prune lj2 lw2 K := by
   rw [prune_append, prune_prune]
+
+/-! ### The two components in which the full statement fails (known findings F12, F25) -/
 
 /-- F12: `prune_journal` drops the `WorkerLost` record of a worker that is no longer live, but
 `RestorerJob::increase_crash_counters` needs it: the crash counter handed to the core for the still pending task 1.0 is
@@ -20,8 +66,43 @@ def witnessF12 : List Record :=
    .taskStarted 1 0 0 [1], .workerLost 1 .connectionLost]
 
 theorem c12_f12_witness : Producible witnessF12 ∧
-    (∃ R X, restore witnessF12 = .ok (R, X) ∧ X.batches.map (·.adjust) = [[(0, (1, 1))]]) ∧
-    (∃ R X, restore (prune [1] [] witnessF12) = .ok (R, X) ∧ X.batches.map (·.adjust) = [[(0, (1, 0))]]) := by
-  refine ⟨by decide, ⟨_, _, rfl, by decide⟩, ⟨_, _, rfl, by decide⟩⟩
+    (∃ R X, restore witnessF12 = .ok (R, X) ∧ batchPending X.batches = [(1, 0, [], 1, 1)]) ∧
+    (∃ R X, restore (prune [1] [] witnessF12) = .ok (R, X) ∧ batchPending X.batches = [(1, 0, [], 1, 0)]) :=
+  ⟨by decide, ⟨_, _, rfl, rfl⟩, ⟨_, _, rfl, rfl⟩⟩
+
+/-- F25: `prune_journal` drops the `WorkerConnected` record of a no-longer-live worker that came from an allocation;
+`load_event_file` learns `queue_to_worker_resources` only from such records, so the queue restored from the pruned
+journal has no worker resources. -/
+def witnessF25 : List Record :=
+  [.serverStart "abc123", .queueCreated 1, .allocQueued 1 100, .workerConnected 1 (some 100), .workerLost 1 .stopped]
+
+theorem c12_f25_witness : Producible witnessF25 ∧
+    (∃ R X, restore witnessF25 = .ok (R, X) ∧ X.queues = [(1, true)]) ∧
+    (∃ R X, restore (prune [] [] witnessF25) = .ok (R, X) ∧ X.queues = [(1, false)]) :=
+  ⟨by decide, ⟨_, _, rfl, rfl⟩, ⟨_, _, rfl, rfl⟩⟩
+
+theorem liveCovers_single (v : RJob) : ∀ j, (alGet [(1, v)] j).isSome = true → [1].contains j = true := by
+  intro j hj
+  by_cases e : 1 = j
+  · subst e; decide
+  · simp [alGet, e] at hj
+
+/-- the full-strength statement is false of the code as it is -/
+theorem c12_full_statement_false : ¬ C12Full := by
+  intro h
+  obtain ⟨R', h1, h2, _⟩ := h witnessF12 [1] []
+    { jobs := [(1, ⟨none, [.array [⟨0, 1, 1⟩] none], [(0, ⟨.running ⟨0, [1]⟩, some 0, 1⟩)], false⟩)]
+      maxJob := 1, maxWorker := 1, uid := "abc123" } rfl (liveCovers_single _)
+  have : restorerFold (prune [1] [] witnessF12) = .ok
+      { jobs := [(1, ⟨none, [.array [⟨0, 1, 1⟩] none], [(0, ⟨.running ⟨0, [1]⟩, some 0, 0⟩)], false⟩)]
+        maxJob := 1, uid := "abc123" } := rfl
+  rw [this] at h1
+  cases h1
+  revert h2
+  decide
+
+/-! the hypotheses of the partial theorem are satisfiable by a non-trivial journal -/
+example : ∃ R, restorerFold witnessF12 = .ok R ∧ LiveCovers R [1] :=
+  ⟨_, rfl, liveCovers_single _⟩
 
 end HqModel.C12
